@@ -103,6 +103,11 @@ def main(argv=None):
     ap.add_argument("--replay-dir", help="where to keep replay files of reported violations (default /verif/replays)")
     ap.add_argument("--verbose", action="store_true")
     a = ap.parse_args(argv)
+    for stream_ in (sys.stdout, sys.stderr):
+        try:
+            stream_.reconfigure(errors="backslashreplace")      # details may quote lone surrogates
+        except Exception:                                         # noqa: BLE001
+            pass
     prop = a.property.upper()
     t0 = time.time()
 
